@@ -63,6 +63,15 @@ func (in *Interp) intercept(fn *ssa.Function, args []Value, caller *frame) (Valu
 		return in.intrinsic(name, args, caller), true
 	}
 	full := fn.String()
+	if caller != nil && !isHarnessFn(caller.fn) {
+		cp := strings.TrimPrefix(pkgPathOf(caller.fn), repoMod+"/")
+		if m := in.W.stubsByPkg[cp]; m != nil {
+			if stub, ok := m[full]; ok {
+				in.fnsSeen[fn]++
+				return in.callFunction(stub, args, nil, caller), true
+			}
+		}
+	}
 	if stub, ok := in.W.stubs[full]; ok {
 		if caller == nil || !isHarnessFn(caller.fn) {
 			in.fnsSeen[fn]++ // call site reached; body replaced by stub
